@@ -905,9 +905,20 @@ func execDense(w *World, st *Step) {
 		var res *roaring.Bitmap
 		var regions []int
 		if noCopy {
+			// sometimes the words are a prefix of a longer caller-owned buffer: the spare
+			// capacity behind them is the caller's too and must not be written either
+			spare := 0
+			if r.Chance(1, 2) {
+				spare = 8 * (1 + r.Intn(1500))
+				for i := 0; i < spare; i++ {
+					raw = append(raw, byte(r.U64()|1))
+				}
+				w.probe("fromdense-words-with-spare-capacity")
+			}
 			ri, reg := w.addRegion(raw, "dense", "C16", 8)
 			regions = []int{ri}
-			w.try("C16", func() { res = roaring.FromDense(reg.Words(), false) })
+			words := reg.Words()[:n]
+			w.try("C16", func() { res = roaring.FromDense(words, false) })
 			w.probe("fromdense-nocopy-over-region")
 		} else {
 			w.try("C16", func() { res = roaring.FromDense(d, true) })
